@@ -1,5 +1,6 @@
 From Coq Require Import List Arith Bool.
-From MM Require Import lib.ListSet model.Elig harness.RunCommon.
+From Coq Require Import ZArith.
+From MM Require Import lib.ListSet model.Elig model.EligFrame gen.Gen_EligAssign harness.RunCommon.
 Import ListNotations.
 
 Definition fields (a : assignments) : list set :=
@@ -14,3 +15,24 @@ Definition agrees (c : case) : bool :=
   Bool.eqb (is_accept (validate t)) accepted &&
   (negb accepted || set_list_eqb (fields (assignments_of es)) answer).
 Definition E (c t x : bool) : elig := {| ec := c; et := t; ex := x |}.
+
+(* ---- the translated get_eligible_assignments (gen/Gen_EligAssign.v) on the same queries: the accepted table as a frame
+   (numeric ID, flags), the ordered subset asked for, and the c / t / x sets the implementation answered with
+   indices=True, with indices=False (IDs as numbers) and with no subset, each sorted *)
+Fixpoint insz (x : Z) (l : list Z) : list Z :=
+  match l with [] => [x] | y :: l' => if Z.leb x y then x :: l else y :: insz x l' end.
+Definition sortz (l : list Z) : list Z := fold_right insz [] l.
+Definition zlist_eqb (a b : list Z) : bool := list_eqb Z.eqb a b.
+Definition ga_is (o : ga_outcome) (want : list Z * list Z * list Z) : bool :=
+  match o with
+  | GA c t x => let '(c', t', x') := want in zlist_eqb (sortz c) c' && zlist_eqb (sortz t) t' && zlist_eqb (sortz x) x'
+  | _ => false
+  end.
+Definition gcase := (frame * list Z * (list Z * list Z * list Z) * (list Z * list Z * list Z) * (list Z * list Z * list Z))%type.
+Definition gagrees (c : gcase) : bool :=
+  let '(data, subset, by_index, by_id, whole) := c in
+  ga_is (gen_get_eligible_assignments data (Some subset) true) by_index &&
+  ga_is (gen_get_eligible_assignments data (Some subset) false) by_id &&
+  ga_is (gen_get_eligible_assignments data None false) whole &&
+  match gen_get_eligible_assignments data None true with GAValueError => true | _ => false end &&
+  match gen_get_eligible_assignments data (Some []) true with GAValueError => true | _ => false end.
